@@ -167,9 +167,11 @@ def sig_of(desc):
         x = make_signal(desc['family'], desc['n'], desc['k'], desc['p1'], desc['p2'])
     dt = desc.get('dtype', 'f8')
     if dt == 'f4':
-        return x.astype(np.float32)
-    if dt in ('i8', 'i2'):
-        return np.clip(np.round(x * 100), -30000, 30000).astype(np.int64 if dt == 'i8' else np.int16)
+        x = x.astype(np.float32)
+    elif dt in ('i8', 'i2'):
+        x = np.clip(np.round(x * 100), -30000, 30000).astype(np.int64 if dt == 'i8' else np.int16)
+    if desc.get('layout', 'C') != 'C':
+        x = relayout(x, desc['layout'])      # strided view / read-only: callers must not .copy() it away
     return x
 
 
@@ -237,7 +239,7 @@ def sift_signal(max_n=400):
     def fam(draw, families, lengths):
         return {'family': draw(st.sampled_from(list(families))), 'n': draw(st.sampled_from(lengths)),
                 'k': draw(st.integers(0, 2**32 - 1)), 'p1': draw(st.floats(0, 1)), 'p2': draw(st.floats(0, 1)),
-                'dtype': draw(st.sampled_from(DTYPES))}
+                'dtype': draw(st.sampled_from(DTYPES)), 'layout': draw(st.sampled_from(['C', 'C', 'C', 'strided', 'readonly']))}
     return st.one_of(
         fam(osc, lens), fam(osc, lens), fam(osc, lens),
         fam(('noise', 'noise', 'levels', 'walk'), [6, 7, 8, 9, 10]),
@@ -271,3 +273,12 @@ def relayout(a, mode):
         out.setflags(write=False)
         return out
     return np.ascontiguousarray(a)
+
+
+def arg(x):
+    """What an oracle hands to the code under test: the array itself when its memory layout (strided view, read-only) is
+    the point of the case, a fresh contiguous copy otherwise."""
+    x = np.asarray(x)
+    if (x.ndim >= 1 and x.shape[0] > 1 and not x.flags['C_CONTIGUOUS']) or not x.flags.writeable:
+        return x
+    return x.copy()
